@@ -14,6 +14,7 @@
 #include <cstdint>
 #include <sys/time.h>
 #include <map>
+#include <memory>
 #include <set>
 #include <stdexcept>
 #include <string>
@@ -56,13 +57,14 @@ struct Outcome {
   std::string reqs;          // rendering of the request sequence
   int nreq = 0;
   bool fail = false, over = false, noprogress = false;
+  bool declared = true;      // every request delivered carries a Content-Length header equal to the length of the body delivered
   std::string exc;           // non-empty: exception class/what (+ context)
   size_t rest = 0;
   std::string str() const {
     std::string s = reqs; if (fail) s += " FAIL"; if (over) s += " OVERCONSUME"; if (noprogress) s += " NO-PROGRESS";
     if (!exc.empty()) s += " EXC:" + exc; s += " rest=" + std::to_string(rest); return s; }
 };
-static volatile long g_parse_calls = 0;
+static volatile long g_parse_calls = 0; static volatile size_t g_tostring_bytes = 0;
 
 static std::string case_text(const std::string &data, const size_t *cuts, int ncuts) {
   std::string t = "bytes=\"" + esc(data) + "\" len=" + std::to_string(data.size()) + " cuts=[";
@@ -99,10 +101,18 @@ static Outcome feed(const std::string &data, const size_t *cuts, int ncuts) {
       while (buff.readableSize() > 0) {
         if (++guard > 4096) { o.noprogress = true; o.rest = buff.readableSize(); return o; }
         size_t given = buff.readableSize();
-        size_t r = p.parse(buff.readableBegin(), given); g_parse_calls++;
+        // parse() gets an exact-size heap copy of the readable bytes: the Buffer keeps the consumed prefix and spare capacity around them, where a read
+        // before the first / past the last byte given would stay inside valid heap memory and ASan would not see it
+        std::unique_ptr<char[]> exact(new char[given]); memcpy(exact.get(), buff.readableBegin(), given);
+        size_t r = p.parse(exact.get(), given); g_parse_calls++;
+        exact.reset();
         if (r > given) { o.over = true; o.rest = given; return o; }
         buff.hasRead(r);
-        if (p.state() == RequestParser::State::kFinishedAll) { Request *q = p.getRequest(); o.reqs += render(*q); o.nreq++; delete q; }
+        if (p.state() == RequestParser::State::kFinishedAll) {
+          Request *q = p.getRequest(); o.reqs += render(*q); o.nreq++;
+          auto cl = q->headers.find("Content-Length"); if (cl == q->headers.end() || cl->second != std::to_string(q->body.size())) o.declared = false;
+          g_tostring_bytes += q->toString().size();      // what the server's context log evaluates for every request (setContextLogEnable): must not crash either
+          delete q; }
         else if (p.state() == RequestParser::State::kFail) { o.fail = true; break; }      // the server drops the connection here
         else break;
       }
@@ -161,8 +171,34 @@ static std::vector<GenReq> grammar() {
   return v;
 }
 
+// Well-formed requests outside the generated grammar, each with a hand-written expectation: the other methods, ;params and %xx escapes in every
+// part of the target, unpadded / padded header values, multi-digit Content-Length with bodies up to and across the 255/256, 1023/1024, 4096 sizes,
+// bodies that contain a blank line or look like a request themselves.
+static std::string pattern_body(size_t n) { std::string b; b.reserve(n); for (size_t i = 0; i < n; i++) b += "0123456789abcdef"[(i * 7 + i / 16) & 15]; return b; }
+static std::vector<GenReq> extras() {
+  std::vector<GenReq> v;
+  auto add = [&](const std::string &method, const std::string &target, const std::string &exp_target, const std::string &ver, const std::string &hdr_lines, const std::string &exp_before_cl, const std::string &exp_after_cl, const std::string &body) {
+    std::string cl = "Content-Length: " + std::to_string(body.size());
+    GenReq g; g.method = method;
+    g.text = method + " " + target + " " + ver + "\r\n" + hdr_lines + cl + "\r\n\r\n" + body;
+    g.expect = "{" + method + " " + exp_target + " " + ver + exp_before_cl + " [" + cl + "]" + exp_after_cl + " body=" + body + "}";
+    v.push_back(g); };
+  add("HEAD", "/", "path=/", "HTTP/1.0", "", "", "", "");
+  add("PUT", "/u", "path=/u", "HTTP/1.1", "", "", "", "hello world!");                                                   // 2-digit Content-Length
+  add("TRACE", "/t", "path=/t", "HTTP/1.1", "Connection: keep-alive\r\n", " [Connection: keep-alive]", "", "");
+  add("OPTIONS", "/o", "path=/o", "HTTP/1.1", "Connection: keep-alive, TE\r\n", " [Connection: keep-alive, TE]", "", "x");
+  add("GET", "/a;p=1;q=2?x=1#f", "path=/a ;p=1 ;q=2 ?x=1 #f", "HTTP/1.1", "", "", "", "");
+  add("GET", "/%41%20b;p%31=v%2f?k%3D=v%26&z=%7e#fr%41g", "path=/A b ;p1=v/ ?k==v& ?z=~ #frAg", "HTTP/1.1", "Host:x\r\nX-Pad:   v  \r\n", "", " [Host: x] [X-Pad: v]", "");
+  add("POST", "/crlf", "path=/crlf", "HTTP/1.1", "", "", "", "a\r\n\r\nb");                                              // a blank line inside the body
+  add("POST", "/nested", "path=/nested", "HTTP/1.1", "", "", "", "GET /x HTTP/1.1\r\nContent-Length: 3\r\n\r\nabc");     // a body that is itself a request
+  add("POST", "/lf", "path=/lf", "HTTP/1.0", "", "", "", "\r\n");                                                        // the body is a bare CRLF
+  for (size_t n : {(size_t)10, (size_t)99, (size_t)100, (size_t)255, (size_t)256, (size_t)300, (size_t)1023, (size_t)1024, (size_t)4096, (size_t)5000})
+    add("POST", "/b" + std::to_string(n), "path=/b" + std::to_string(n), "HTTP/1.1", "Host: x\r\n", "", " [Host: x]", pattern_body(n));
+  return v;
+}
+
 struct Stream { std::string data, expect; std::vector<size_t> starts; std::vector<size_t> mlen; int nreq; };
-static long g_streams = 0, g_splits = 0, g_split_diff = 0;
+static long g_streams = 0, g_splits = 0, g_split_diff = 0, g_extras = 0;
 
 static const char *zone_of(const Stream &st, size_t cut) {   // which part of which request a cut falls into
   size_t k = 0; while (k + 1 < st.starts.size() && st.starts[k + 1] <= cut) k++;
@@ -206,12 +242,17 @@ static void sweep_stream(const Stream &st, int maxcuts, bool uniform_all) {
     viol("parser-unsplit-well-formed-stream-misparsed", case_text(st.data, nullptr, 0) + " => " + wholes + " ;; expected " + st.expect);
   outcome(std::to_string(whole.nreq) + " request(s) parsed from the unsplit stream");
   size_t L = st.data.size(); size_t c[4];
-  for (c[0] = 1; c[0] < L; c[0]++) check_split(st, whole, wholes, c, 1);                                        // every 1-cut split first (smallest replays)
+  if (maxcuts == 0) { for (c[0] = 1; c[0] < L; c[0]++) if (c[0] < 200 || c[0] + 50 > L || c[0] == L / 2) check_split(st, whole, wholes, c, 1); }      // very long stream: cuts in the head, the middle, the tail
+  else for (c[0] = 1; c[0] < L; c[0]++) check_split(st, whole, wholes, c, 1);                                   // every 1-cut split first (smallest replays)
   if (maxcuts >= 2) for (c[0] = 1; c[0] < L; c[0]++) for (c[1] = c[0] + 1; c[1] < L; c[1]++) check_split(st, whole, wholes, c, 2);
   if (maxcuts >= 3) for (c[0] = 1; c[0] < L; c[0]++) for (c[1] = c[0] + 1; c[1] < L; c[1]++) for (c[2] = c[1] + 1; c[2] < L; c[2]++) check_split(st, whole, wholes, c, 3);
   // uniform chunking: every chunk size k (k = 1 is the byte-by-byte feed)
   std::vector<size_t> cuts;
-  for (size_t k = 1; k < L && (uniform_all || k <= 3); k++) {
+  for (size_t k = (maxcuts == 0 ? 64 : 1); k < L && (uniform_all || k <= 3); k++) {
+    cuts.clear(); for (size_t x = k; x < L; x += k) cuts.push_back(x);
+    check_split(st, whole, wholes, cuts.data(), (int)cuts.size());
+  }
+  if (!uniform_all) for (size_t k : {7, 64, 255, 256, 1000, 1024, 4096}) if (k < L) {
     cuts.clear(); for (size_t x = k; x < L; x += k) cuts.push_back(x);
     check_split(st, whole, wholes, cuts.data(), (int)cuts.size());
   }
@@ -228,6 +269,23 @@ static int run_split(long shard, long nshards, int level, double deadline) {
   auto g = grammar(); long n = (long)g.size(); long work = 0; bool capped = false;
   auto mine = [&]() { return (work++ % nshards) == shard; };
   auto late = [&]() { if (hx::now_s() > deadline) { if (!capped) printf("@CAP split shard %ld: deadline reached after %ld streams, %ld splits\n", shard, g_streams, g_splits); capped = true; } return capped; };
+  // extras (hand-written expectations): alone, and before / after a grammar request (a request boundary next to an unusual body); every 1-cut split,
+  // every 2-cut split of the short ones, uniform chunks (all sizes when short, else 1,2,3,7,64,255,256,1000,1024,4096)
+  {
+    auto x = extras(); std::vector<GenReq> gx = g; gx.insert(gx.end(), x.begin(), x.end()); int plain = 31, closing = 200;     // two grammar requests (with / without a body)
+    for (size_t e = 0; e < x.size() && !late(); e++) {
+      int xi = (int)(n + e); size_t len = x[e].text.size();
+      if (mine()) sweep_stream(make_stream(gx, {xi}), len <= (level ? 320u : 130u) ? 2 : 1, len <= 700);
+      if (mine()) sweep_stream(make_stream(gx, {xi, plain}), len <= (level ? 200u : 70u) ? 2 : 1, len <= 400);
+      if (mine()) sweep_stream(make_stream(gx, {closing, xi}), len <= (level ? 200u : 70u) ? 2 : 1, len <= 400);
+      if (mine()) sweep_stream(make_stream(gx, {xi, xi}), 1, len <= 400);
+    }
+    // a body longer than 65535 bytes (5-digit Content-Length): cuts in the head / middle / tail, chunk sizes 64,255,256,1000,1024,4096
+    { GenReq big; big.method = "POST"; std::string body = pattern_body(66000), cl = "Content-Length: 66000";
+      big.text = "POST /b66000 HTTP/1.1\r\n" + cl + "\r\n\r\n" + body; big.expect = "{POST path=/b66000 HTTP/1.1 [" + cl + "] body=" + body + "}";
+      gx.push_back(big); if (mine() && !late()) sweep_stream(make_stream(gx, {(int)gx.size() - 1, plain}), 0, false); x.push_back(big); }
+    g_extras = (long)x.size();
+  }
   // 1-request streams: the whole grammar; every split with <=2 cuts (thorough: <=3 cuts), all uniform chunk sizes
   for (long i = 0; i < n && !late(); i++) if (mine()) sweep_stream(make_stream(g, {(int)i}), level ? 3 : 2, true);
   // 2-request streams: quick = A x A for a covering subset A (stride through the grammar), thorough = (all x B) + (B x all), B covering subset
@@ -242,7 +300,7 @@ static int run_split(long shard, long nshards, int level, double deadline) {
   }
   // 3-request streams: C x C x C, every split with <=2 cuts
   for (int a : C) for (int b : C) for (int c : C) { if (late()) break; if (mine()) sweep_stream(make_stream(g, {a, b, c}), 2, level != 0); }
-  printf("@INFO split shard %ld/%ld level %d: grammar=%ld requests, |A|=%zu |B|=%zu |C|=%zu, streams=%ld splits=%ld differing=%ld\n", shard, nshards, level, n, A.size(), B.size(), C.size(), g_streams, g_splits, g_split_diff);
+  printf("@INFO split shard %ld/%ld level %d: grammar=%ld requests + %ld extras, |A|=%zu |B|=%zu |C|=%zu, streams=%ld splits=%ld differing=%ld\n", shard, nshards, level, n, g_extras, A.size(), B.size(), C.size(), g_streams, g_splits, g_split_diff);
   printf("@STAT states=%ld transitions=%ld executions=%ld streams=%ld splits=%ld split_outcome_differs=%ld parse_calls=%ld violations=%ld\n", g_splits + g_streams, g_splits + g_streams, g_splits + g_streams, g_streams, g_splits, g_split_diff, g_parse_calls, g_viol_total);
   return 0;
 }
@@ -251,9 +309,21 @@ static int run_split(long shard, long nshards, int level, double deadline) {
 static const char kAlpha[] = {'G', 'E', 'T', 'P', ' ', '/', ':', '\r', '\n', 'H', '1', '.', '0', 'x'};
 static const char *kPrefix[] = { "", "GET /", "GET / HTTP/1.1\r\n", "GET / HTTP/1.1\r\nContent-Length: ", "GET / HTTP/1.1\r\nContent-Length:", "POST / HTTP/1.0\r\nContent-Length: 3\r\n\r\n", "GET / HTTP/1.1\r\nH" };
 
-static void total_check(const char *mode, const std::string &data, const size_t *cuts, int ncuts, long &execs) {
+static long g_mut_compared = 0, g_mut_wellformed = 0;
+// `whole` (may be null): the outcome of the unsplit stream when that is a sequence of completely parsed requests with declared body lengths;
+// then every split has to yield the same sequence (segmentation independence beyond the generated grammar)
+static void total_check(const char *mode, const std::string &data, const size_t *cuts, int ncuts, long &execs, const Outcome *whole = nullptr) {
   execs++;
   Outcome o = feed(data, cuts, ncuts);
+  if (whole && ncuts > 0 && o.exc.empty() && !o.over && !o.noprogress) {
+    g_mut_compared++;
+    if (o.reqs != whole->reqs || o.fail != whole->fail || o.rest != whole->rest) {
+      std::string m = mode; size_t b = m.find('['), e = m.find_first_of("=+]", b == std::string::npos ? 0 : b);      // mut[content-length-value=05+valid...] -> content-length-value
+      std::string what = b == std::string::npos ? m : m.substr(b + 1, e - b - 1);
+      std::string sig = std::string(o.fail && !whole->fail ? "parser-split-fails-on-accepted-request-" : "parser-split-changes-request-sequence-of-accepted-request-") + what;
+      if (!viol_counted(sig)) viol(sig, std::string(mode) + " " + case_text(data, cuts, ncuts) + " => split: " + o.str() + " ;; unsplit: " + whole->str());
+    }
+  }
   if (o.over) viol("parser-returns-more-than-given", std::string(mode) + " " + case_text(data, cuts, ncuts));
   if (o.noprogress) viol("parser-feed-loop-makes-no-progress", std::string(mode) + " " + case_text(data, cuts, ncuts));
   if (!o.exc.empty()) { if (!viol_counted(exc_sig(o.exc))) viol(exc_sig(o.exc), std::string(mode) + " " + case_text(data, cuts, ncuts) + " => " + o.str()); outcome("exception " + o.exc); }
@@ -366,16 +436,19 @@ static int run_mut(long shard, long nshards, int two_cut_max, double deadline) {
       std::string mode = "mut[" + m.name + (variant == 1 ? "+valid-request-after" : variant == 2 ? "+valid-request-before" : "") + "]";
       g_cur_mode = "mut";
       total_check(mode.c_str(), data, nullptr, 0, execs);
+      Outcome whole = feed(data, nullptr, 0);
+      bool wf = whole.exc.empty() && !whole.fail && !whole.over && !whole.noprogress && whole.rest == 0 && whole.nreq >= 1 && whole.declared;
+      const Outcome *ref = wf ? &whole : nullptr; if (wf) { g_mut_wellformed++; if (std::getenv("C12_MUT_LIST")) printf("@INFO accepted-with-declared-length: %s => %s\n", mode.c_str(), whole.str().substr(0, 200).c_str()); }
       size_t L = data.size();
       if (L <= 400) {                                       // every 1-cut and (short inputs) 2-cut split, plus byte-by-byte
         size_t c[2];
-        for (c[0] = 1; c[0] < L; c[0]++) { total_check(mode.c_str(), data, c, 1, execs); if (L <= (size_t)two_cut_max) for (c[1] = c[0] + 1; c[1] < L; c[1]++) total_check(mode.c_str(), data, c, 2, execs); }
+        for (c[0] = 1; c[0] < L; c[0]++) { total_check(mode.c_str(), data, c, 1, execs, ref); if (L <= (size_t)two_cut_max) for (c[1] = c[0] + 1; c[1] < L; c[1]++) total_check(mode.c_str(), data, c, 2, execs, ref); }
       }
-      for (size_t k : {1, 2, 3, 7, 1024}) { std::vector<size_t> cuts; for (size_t x = k; x < L; x += k) cuts.push_back(x); if (!cuts.empty()) total_check(mode.c_str(), data, cuts.data(), (int)cuts.size(), execs); }
+      for (size_t k : {1, 2, 3, 7, 1024}) { std::vector<size_t> cuts; for (size_t x = k; x < L; x += k) cuts.push_back(x); if (!cuts.empty()) total_check(mode.c_str(), data, cuts.data(), (int)cuts.size(), execs, ref); }
       if (samples < 2 && variant == 0 && (distinct % 40) == 4) { samples++; printf("@SAMPLE %s %s\n", mode.c_str(), case_text(data, nullptr, 0).substr(0, 240).c_str()); }
     }
   }
-  printf("@INFO mut shard %ld/%ld: %zu single-field mutations (all shards) x 3 contexts, every 1-cut split (2-cut when <=%d bytes), uniform chunks 1/2/3/7: inputs=%ld feeds=%ld\n", shard, nshards, ms.size(), two_cut_max, distinct, execs);
+  printf("@INFO mut shard %ld/%ld: %zu single-field mutations (all shards) x 3 contexts, every 1-cut split (2-cut when <=%d bytes), uniform chunks 1/2/3/7/1024: inputs=%ld feeds=%ld; %ld inputs parsed unsplit into complete requests with declared body lengths, %ld of their splits compared with the unsplit sequence\n", shard, nshards, ms.size(), two_cut_max, distinct, execs, g_mut_wellformed, g_mut_compared);
   printf("@STAT states=%ld transitions=%ld executions=%ld mutation_inputs=%ld parse_calls=%ld violations=%ld\n", distinct, execs, execs, distinct, g_parse_calls, g_viol_total);
   return 0;
 }
